@@ -62,7 +62,7 @@ theorem write_tape_exec (tape : Array UInt64) (strs buf : Bytes) (val : UInt64) 
       ⟨[("pj.lim", .int tape.size), ("Strings.B", .bytes strs), ("Message", .bytes buf), ("val", .u64 val), ("c", .u8 c)], tape⟩ =
     .normal ⟨[("pj.lim", .int (tape.push (mkWord c val)).size), ("Strings.B", .bytes strs), ("Message", .bytes buf),
       ("val", .u64 val), ("c", .u8 c)], tape.push (mkWord c val)⟩ := by
-  simp [goParsedJson_write_tape, asWords, or_shl_eq_mkWord, Array.push_eq_append]
+  simp [goParsedJson_write_tape, asWords, or_shl_eq_mkWord]
 
 /-- `pj.write_tape(val, c)` is `M.writeTape m val c`: one word appended, `len(pj.Tape)` updated, buffers untouched -/
 theorem write_tape_sim (m : M) (buf : Bytes) (val : UInt64) (c : UInt8) (fuel : Nat) :
@@ -79,8 +79,9 @@ theorem callFun_write_tape (s : GoSem.St) (strs buf : Bytes) (a1 a2 : Expr) (val
       .ret ⟨backEnv s.env (s.tape.push (mkWord c val)).size strs buf, s.tape.push (mkWord c val)⟩ [] := by
   obtain ⟨hl, hS, hM⟩ := h
   have he := write_tape_exec s.tape strs buf val c f
+  simp only [goParsedJson_write_tape] at he
   rw [callFun]
-  simp [goFuns, h1, h2, hl, hS, hM, copyPtrs, copyGlobals, globalVars, copyPtrsBack, -exec, -exec1]
+  simp [goFuns, goParsedJson_write_tape, h1, h2, hl, hS, hM, copyPtrs, copyGlobals, globalVars, copyPtrsBack, -exec, -exec1]
   rw [he]
   simp [copyPtrsBack, copyGlobals, backEnv]
 
@@ -112,8 +113,9 @@ theorem callFun_writeTapeTagVal (s : GoSem.St) (strs buf : Bytes) (a1 a2 : Expr)
       .ret ⟨backEnv s.env ((s.tape.push (mkWord tag 0)).push val).size strs buf, (s.tape.push (mkWord tag 0)).push val⟩ [] := by
   obtain ⟨hl, hS, hM⟩ := h
   have he := writeTapeTagVal_exec s.tape strs buf tag val f
+  simp only [goParsedJson_writeTapeTagVal] at he
   rw [callFun]
-  simp [goFuns, h1, h2, hl, hS, hM, copyPtrs, copyGlobals, globalVars, copyPtrsBack, -exec, -exec1]
+  simp [goFuns, goParsedJson_writeTapeTagVal, h1, h2, hl, hS, hM, copyPtrs, copyGlobals, globalVars, copyPtrsBack, -exec, -exec1]
   rw [he]
   simp [copyPtrsBack, copyGlobals, backEnv]
 
@@ -143,8 +145,9 @@ theorem callFun_writeTapeTagValFlags (s : GoSem.St) (strs buf : Bytes) (a1 a2 : 
       .ret ⟨backEnv s.env ((s.tape.push id).push val).size strs buf, (s.tape.push id).push val⟩ [] := by
   obtain ⟨hl, hS, hM⟩ := h
   have he := writeTapeTagValFlags_exec s.tape strs buf id val f
+  simp only [goParsedJson_writeTapeTagValFlags] at he
   rw [callFun]
-  simp [goFuns, h1, h2, hl, hS, hM, copyPtrs, copyGlobals, globalVars, copyPtrsBack, -exec, -exec1]
+  simp [goFuns, goParsedJson_writeTapeTagValFlags, h1, h2, hl, hS, hM, copyPtrs, copyGlobals, globalVars, copyPtrsBack, -exec, -exec1]
   rw [he]
   simp [copyPtrsBack, copyGlobals, backEnv]
 
@@ -186,8 +189,16 @@ theorem annotate_previousloc_sim (m : M) (buf : Bytes) (at_ val : UInt64) (fuel 
   unfold M.annotate
   by_cases h : at_.toNat < m.tape.size
   · have h' : (at_.toNat : Int) < m.tape.size := by omega
-    simp [goParsedJson_annotate_previousloc, stEnv, h, h']
+    have hg : m.tape[at_.toNat]? = some m.tape[at_.toNat] := Array.getElem?_eq_getElem h
+    rw [dif_pos h]
+    simp only [goParsedJson_annotate_previousloc, stEnv, runFun, exec, exec1, evalE, List.cons_append, List.nil_append,
+      Env.get, String.reduceAppend, binop]
+    simp [h', hg, -Int.ofNat_lt]
+    rw [dif_pos h]
   · have h' : ¬ (at_.toNat : Int) < m.tape.size := by omega
-    simp [goParsedJson_annotate_previousloc, stEnv, h, h']
+    rw [dif_neg h]
+    simp only [goParsedJson_annotate_previousloc, stEnv, runFun, exec, exec1, evalE, List.cons_append, List.nil_append,
+      Env.get, String.reduceAppend, binop]
+    simp [h', -Int.ofNat_lt]
 
 end SJ.GoStage2
